@@ -225,11 +225,11 @@ M('C03', 'second-producer-of-pseudo-op', STR, '    decisions_by_index = defaultd
 M('C03', 'patch-before-sentinel-test', STR,
   '    decisions = MergeDecisionBuilder()\n\n    if local_diff is ParentDeleted:',
   '    decisions = MergeDecisionBuilder()\n    local = patch(base, local_diff)\n\n    if local_diff is ParentDeleted:', 'R03.5')
-M('C03', 'no-builtin-fallback', PP, '    else:\n        return builtin_merge_render(b, l, r, strategy)',
-  '    else:\n        raise RuntimeError("no text merge tool available")', 'R03.6')
+M('C03', 'no-builtin-fallback', PP, '    # is not a merge result\n    return builtin_merge_render(b, l, r, strategy)',
+  '    # is not a merge result\n    raise RuntimeError("no text merge tool available")', 'R03.6')
 M('C03', 'renderer-returns-text-only', PP, '    merged, status = external_merge_render(cmd.split(), b, l, r)\n    return merged, status\n',
   '    merged, status = external_merge_render(cmd.split(), b, l, r)\n    return merged\n', 'R03.6')
-M('C03', 'which-tests-other-tool', PP, "elif config.use_diff and which('diff3'):\n        return merge_render_with_diff3", "elif config.use_diff and which('diff'):\n        return merge_render_with_diff3", 'R03.6')
+M('C03', 'which-tests-other-tool', PP, "elif config.use_diff and which('diff3'):\n        merged, status = merge_render_with_diff3", "elif config.use_diff and which('diff'):\n        merged, status = merge_render_with_diff3", 'R03.6')
 T('C03', 'twin-tuples-to-sets', MG, 'elif chunktype in ("AR/A", "A/AR", "A/A", "AR/AR"):', 'elif chunktype in {"AR/A", "A/AR", "A/A", "AR/AR"}:')
 T('C03', 'twin-split-arm', MG, '        elif chunktype in ("AR/R", "R/AR"):\n            # Identical (ensured by chunking) twosided removal with insertion just before one of them\n            decisions.onesided(path, a0, a1)\n            decisions.agreement(path, p0, p1)\n',
   '        elif chunktype == "AR/R":\n            decisions.onesided(path, a0, a1)\n            decisions.agreement(path, p0, p1)\n        elif chunktype == "R/AR":\n            decisions.onesided(path, a0, a1)\n            decisions.agreement(path, p0, p1)\n')
@@ -329,8 +329,8 @@ M('C10', 'diff3-use-local-returns-remote', PP, '    if strategy == "use-local":\
 M('C10', 'list-arm-use-remote-picks-local', MG, '                elif list_strategy == "use-remote":\n                    # Not sure if this will be used, it just makes sense here\n                    decisions.remote(path, p0, p1)',
   '                elif list_strategy == "use-remote":\n                    # Not sure if this will be used, it just makes sense here\n                    decisions.local(path, p0, p1)', 'R10.1')
 M('C10', 'git-cmd-file-order-changed', PP, "git_mergefile_print_cmd = 'git merge-file -p local base remote'", "git_mergefile_print_cmd = 'git merge-file -p remote base local'", 'R10.1')
-M('C10', 'temp-file-holds-other-side', PP, "        with io.open(os.path.join(td, 'local'), 'w', encoding=\"utf8\") as f:\n            f.write(l)",
-  "        with io.open(os.path.join(td, 'local'), 'w', encoding=\"utf8\") as f:\n            f.write(r)", 'R10.1')
+M('C10', 'temp-file-holds-other-side', PP, "        with io.open(os.path.join(td, 'local'), 'w', encoding=\"utf8\",\n                     errors=\"surrogatepass\") as f:\n            f.write(l)",
+  "        with io.open(os.path.join(td, 'local'), 'w', encoding=\"utf8\",\n                     errors=\"surrogatepass\") as f:\n            f.write(r)", 'R10.1')
 M('C10', 'generic-keeps-conflict-flag', STR, '                d.action = action\n                d.conflict = False\n    else:', '                d.action = action\n    else:', 'R10.2')
 M('C10', 'root-strategy-not-applied', MG, '    strategy = strategies.get("/")\n    resolve_strategy_generic(path, decisions, strategy)\n', '    strategy = strategies.get("/")\n', 'R10.3')
 M('C10', 'use-strategies-not-root', MNB, '    else:\n        strategies["/"] = merge_strategy', '    else:\n        strategies["/cells"] = merge_strategy', 'R10.3')
@@ -345,9 +345,9 @@ M('C07', 'conflict-flag-status-gt-1', STR, '        conflict = status != 0\n', '
 M('C07', 'source-gets-header-line', STR, '        custom_diff = [op_replace(path[-1], merged)]', '        custom_diff = [op_replace(path[-1], "# merged by nbdime\\n" + merged)]', 'R07.1')
 M('C07', 'renderer-fed-base-twice', STR, '        remote = patch(base, remote_diff)\n        merged, status', '        remote = patch(base, local_diff)\n        merged, status', 'R07.1')
 M('C07', 'builtin-markers-with-status-0', PP, '    merged = "".join(lines)\n    return merged, 1', '    merged = "".join(lines)\n    return merged, 0', 'R07.2')
-M('C07', 'git-status-reset', PP, '    if "\\n" in lines[-1] and (">"*7) in lines[-1]:\n        merged = merged.rstrip()\n    return merged, status',
-  '    if "\\n" in lines[-1] and (">"*7) in lines[-1]:\n        merged = merged.rstrip()\n        status = 0\n    return merged, status', 'R07.2')
-M('C07', 'external-status-always-zero', PP, '        status = p.returncode\n        output = output.decode(\'utf8\')\n        # normalize newlines', '        status = 0\n        output = output.decode(\'utf8\')\n        # normalize newlines', 'R07.2')
+M('C07', 'git-status-reset', PP, '    if lines and "\\n" in lines[-1] and (">"*7) in lines[-1]:\n        merged = merged.rstrip()\n    return merged, status',
+  '    if lines and "\\n" in lines[-1] and (">"*7) in lines[-1]:\n        merged = merged.rstrip()\n        status = 0\n    return merged, status', 'R07.2')
+M('C07', 'external-status-always-zero', PP, '        status = p.returncode\n        output = output.decode(\'utf8\', errors=\'surrogatepass\')\n        # normalize newlines', '        status = 0\n        output = output.decode(\'utf8\', errors=\'surrogatepass\')\n        # normalize newlines', 'R07.2')
 M('C07', 'deleted-marker-not-marker-shaped', STR, '["<<<<<<< REMOTE CELL DELETED >>>>>>>\\n"]', '["(cell deleted on remote)\\n"]', 'R07.3')
 M('C07', 'builtin-adds-explanatory-line', PP, '    sep2 = "%s\\n" % (sep2,)\n    lines.append(sep2)', '    sep2 = "%s\\n" % (sep2,)\n    lines.append("both sides changed these lines\\n")\n    lines.append(sep2)', 'R07.3')
 M('C07', 'cell-marker-plain-text', STR, '    cells.append(cell_marker("%s" % (m1,), with_id))', '    cells.append(cell_marker("or", with_id))', 'R07.3')
@@ -400,8 +400,8 @@ M('C14', 'output-differ-drops-path-only', NBD, '        dd_conj = diff(a_conj, b
 M('C14', 'dict-differ-drops-config', GEN, '            dd = diffit(avalue, bvalue, path=subpath, config=config)', '            dd = diffit(avalue, bvalue, path=subpath)', 'R14.3')
 M('C14', 'true-installs-default-differ', NBD, '        if subkeys is True:\n            notebook_differs[path] = diff_ignore', '        if subkeys is True:\n            notebook_differs[path] = diff', 'R14.4')
 M('C14', 'key-filter-inverted', NBD, '            if e.key not in ignore_keys:', '            if e.key in ignore_keys:', 'R14.4')
-M('C14', 'ignore-returns-shared-list', NBD, '    """Always returns an empty diff"""\n    return []', '    """Always returns an empty diff"""\n    return _EMPTY', 'R14.4',
-  edits=[(NBD, 'def diff_ignore(*args, **kwargs):', '_EMPTY = []\n\n\ndef diff_ignore(*args, **kwargs):')])
+M('C14', 'ignore-returns-shared-list', 'nbdime/diffing/generic.py', '    """Always returns an empty diff"""\n    return []', '    """Always returns an empty diff"""\n    return _EMPTY', 'R14.4',
+  edits=[('nbdime/diffing/generic.py', 'def diff_ignore(*args, **kwargs):', '_EMPTY = []\n\n\ndef diff_ignore(*args, **kwargs):')])
 T('C14', 'twin-positional-forward', NBD, '        dd_conj = diff(a_conj, b_conj, path=path, config=config)', '        dd_conj = diff(a_conj, b_conj, path, config)')
 T('C14', 'twin-keyword-call', ARGS, '        set_notebook_diff_targets(\n            args.sources, args.outputs, args.attachments, args.metadata,\n            args.id, args.details)',
   '        set_notebook_diff_targets(\n            sources=args.sources, outputs=args.outputs, attachments=args.attachments, metadata=args.metadata,\n            identifier=args.id, details=args.details)')
@@ -410,7 +410,7 @@ T('C14', 'twin-keyword-call', ARGS, '        set_notebook_diff_targets(\n       
 M('C16', 'highlight-without-use-color', PP, '    if config.use_color and not prefix.strip() and (is_markdown or config.language):', '    if not prefix.strip() and (is_markdown or config.language):', 'R16.1')
 M('C16', 'colorama-used-directly', PP, '    config.out.write("%s%s %s:%s\\n" % (config.INFO, msg, path, config.RESET))',
   '    config.out.write("%s%s %s:%s\\n" % (colorama.Fore.BLUE, msg, path, config.RESET))', 'R16.1')
-M('C16', 'git-color-words-kept', PP, '    if not config.use_color:\n        cmd = cmd.replace(" --color-words", "")\n    elif not config.color_words:',
+M('C16', 'git-color-words-kept', PP, '    if not config.use_color:\n        # Explicitly, or git\'s own color.ui / color.diff setting decides\n        cmd = cmd.replace(" --color-words", " --no-color")\n    elif not config.color_words:',
   '    if not config.color_words:', 'R16.1')
 M('C16', 'col-const-indexed-by-true', PP, '    def INFO(self):\n        return col_const[self.use_color].INFO', '    def INFO(self):\n        return col_const[True].INFO', 'R16.1')
 M('C16', 'literal-escape-code', PP, "    config.out.write(\"%s%s: %s\\n\" % (prefix, k, v))", "    config.out.write(\"\\x1b[1m%s%s: %s\\n\" % (prefix, k, v))", 'R16.1')
@@ -449,7 +449,8 @@ T('C19', 'twin-redefine-port-in-tool', CFGPY, 'class NbDiffTool(GitDiff, WebTool
 T('C19', 'twin-docs-reordered-members', RST, '    Options to web tool commands (NbDiffTool, NbMergeTool).', '    Options to web tool commands (NbMergeTool, NbDiffTool).')
 
 # ------------------------------------------------------------------------------------------ C13
-M('C13', 'output-data-not-restored', NBD, "        tmp_data = b.pop('data')\n        b_conj = copy.deepcopy(b)\n        b.data = tmp_data\n", "        tmp_data = b.pop('data')\n        b_conj = copy.deepcopy(b)\n", 'R13.1')
+M('C13', 'output-data-popped-and-restored', NBD, "        b_conj = copy.deepcopy({k: v for k, v in b.items() if k != 'data'})\n", "        tmp_data = b.pop('data')\n        b_conj = copy.deepcopy(b)\n        b.data = tmp_data\n", 'R13.1')
+M('C13', 'output-data-popped-not-restored', NBD, "        b_conj = copy.deepcopy({k: v for k, v in b.items() if k != 'data'})\n", "        b_conj = copy.deepcopy(b)\n        b_conj.pop('data')\n        b.pop('data', None)\n", 'R13.1')
 M('C13', 'apply-without-deepcopy', DEC, '    merged = copy.deepcopy(base)\n', '    merged = base\n', 'R13.1')
 M('C13', 'resolve-action-extends-decision-diff', DEC, '    elif a == "local_then_remote":\n        return decision.local_diff + decision.remote_diff',
   '    elif a == "local_then_remote":\n        decision.local_diff.extend(decision.remote_diff)\n        return decision.local_diff', 'R13.1')
@@ -466,8 +467,7 @@ T('C13', 'twin-sort-a-copy', PP, '    for key, e in sorted([(e.key, e) for e in 
   '    entries = list(di)\n    entries.sort(key=lambda e: e.key)\n    for e in entries:\n        pretty_print_diff_entry(a, e, path, config)')
 T('C13', 'twin-mutate-local-comprehension', GEN, '    akeys = set(a.keys())\n    bkeys = set(b.keys())\n\n    di = MappingDiffBuilder()\n\n    # Sorting keys in loops',
   '    akeys = set(a.keys())\n    bkeys = set(b.keys())\n    names = [k for k in akeys]\n    names.append("")\n    names.sort()\n\n    di = MappingDiffBuilder()\n\n    # Sorting keys in loops')
-T('C13', 'twin-restore-by-subscript', NBD, "        tmp_data = a.pop('data')\n        a_conj = copy.deepcopy(a)  # Output without data\n        a.data = tmp_data          # Restore output",
-  "        tmp_data = a.pop('data')\n        a_conj = copy.deepcopy(a)  # Output without data\n        a['data'] = tmp_data          # Restore output")
+T('C13', 'twin-output-copy-then-pop-on-copy', NBD, "        b_conj = copy.deepcopy({k: v for k, v in b.items() if k != 'data'})\n", "        b_conj = copy.deepcopy(b)\n        b_conj.pop('data')\n")
 
 # ------------------------------------------------------------------------------------------ C02
 M('C02', 'dict-leaf-loose-compare', GEN, '            if not compare_strict(avalue, bvalue):\n                di.replace(key, bvalue)', '            if avalue != bvalue:\n                di.replace(key, bvalue)', 'R02.1')
@@ -485,7 +485,11 @@ T('C02', 'twin-early-equal-strings', 'nbdime/diffing/sequences.py', "    if a ==
 T('C02', 'twin-hoist-length', LCS, '        if i > x:\n            di.removerange(x, i-x)', '        if i > x:\n            n = i - x\n            di.removerange(x, n)')
 
 # ------------------------------------------------------------------------------------------ C01
-M('C01', 'mime-differ-loose-compare', NBD, '    elif not compare_strict(avalue, bvalue):\n        diffbuilder.replace(key, bvalue)', '    elif avalue != bvalue:\n        diffbuilder.replace(key, bvalue)', 'R01.3')
+M('C01', 'mime-differ-loose-compare', NBD, '    elif not strict_equal(avalue, bvalue):', '    elif avalue != bvalue:', 'R01.3')
+M('C01', 'mime-differ-shallow-compare', NBD, '    elif not strict_equal(avalue, bvalue):', '    elif not compare_strict(avalue, bvalue):', 'R01.12')
+M('C02', 'mime-differ-diffs-scalars', NBD, '    if (any(mimetype.startswith(tm) for tm in _split_mimes) and\n            type(avalue) is type(bvalue) and\n            isinstance(avalue, (str, list, dict))):', '    if any(mimetype.startswith(tm) for tm in _split_mimes):', 'R02.12')
+M('C14', 'mime-differ-type-change-to-differ', NBD, '            type(avalue) is type(bvalue) and\n            isinstance(avalue, (str, list, dict))):', '            isinstance(avalue, (str, list, dict))):', 'R14.10')
+T('C01', 'twin-mime-differ-explicit-pairs', NBD, '            type(avalue) is type(bvalue) and\n            isinstance(avalue, (str, list, dict))):', '            (isinstance(avalue, str) and isinstance(bvalue, str) or\n             isinstance(avalue, list) and isinstance(bvalue, list) or\n             isinstance(avalue, dict) and isinstance(bvalue, dict))):')
 M('C01', 'mime-fastpath-loose', NBD, '    if isinstance(avalue, str) and isinstance(bvalue, str) and avalue == bvalue:\n        return', '    if avalue == bvalue:\n        return', 'R01.3')
 M('C01', 'attachments-emit-sequence-op', NBD, '    for key in sorted(bkeys - akeys):\n        di.add(key, b[key])\n    return di.validated()\n\n\ndef diff_mime_bundle',
   '    for key in sorted(bkeys - akeys):\n        di.append(op_addrange(0, [b[key]]))\n    return di.validated()\n\n\ndef diff_mime_bundle', 'R01.1',
@@ -603,14 +607,14 @@ M('C01', 'diff-file-written-unescaped-in-locale-codec', NBDIFF, 'json.dump(d, df
   'json.dump(d, df, indent=2, separators=(",", ": "), ensure_ascii=False)', 'R01.5')
 T('C01', 'twin-diff-file-utf8-both-sides', NBDIFF, '        with open(output, "w") as df:', '        with open(output, "w", encoding="utf8") as df:',
   edits=[(NBDIFF, 'json.dump(d, df, indent=2, separators=(",", ": "))', 'json.dump(d, df, indent=2, separators=(",", ": "), ensure_ascii=False)')])
-M('C03', 'raise-on-merge-status-above-one', PP, "        status = p.returncode\n        output = output.decode('utf8')\n        # normalize newlines",
-  "        status = p.returncode\n        if status not in (0, 1):\n            raise RuntimeError('merge tool failed')\n        output = output.decode('utf8')\n        # normalize newlines", 'R03.11')
-T('C03', 'twin-raise-on-signal-status-only', PP, "        status = p.returncode\n        output = output.decode('utf8')\n        # normalize newlines",
-  "        status = p.returncode\n        if status < 0:\n            raise RuntimeError('merge tool was killed')\n        output = output.decode('utf8')\n        # normalize newlines")
-M('C07', 'tool-stderr-merged-into-text', PP, "        p = Popen(cmd, cwd=td, stdout=PIPE)\n        output, errors = p.communicate()\n        status = p.returncode\n        output = output.decode('utf8')\n        # normalize newlines",
-  "        p = Popen(cmd, cwd=td, stdout=PIPE, stderr=subprocess.STDOUT)\n        output, errors = p.communicate()\n        status = p.returncode\n        output = output.decode('utf8')\n        # normalize newlines", 'R07.5')
-T('C07', 'twin-tool-stderr-captured-separately', PP, "        p = Popen(cmd, cwd=td, stdout=PIPE)\n        output, errors = p.communicate()\n        status = p.returncode\n        output = output.decode('utf8')\n        # normalize newlines",
-  "        p = Popen(cmd, cwd=td, stdout=PIPE, stderr=PIPE)\n        output, errors = p.communicate()\n        status = p.returncode\n        output = output.decode('utf8')\n        # normalize newlines")
+M('C03', 'raise-on-merge-status-above-one', PP, "        status = p.returncode\n        output = output.decode('utf8', errors='surrogatepass')\n        # normalize newlines",
+  "        status = p.returncode\n        if status not in (0, 1):\n            raise RuntimeError('merge tool failed')\n        output = output.decode('utf8', errors='surrogatepass')\n        # normalize newlines", 'R03.11')
+T('C03', 'twin-raise-on-signal-status-only', PP, "        status = p.returncode\n        output = output.decode('utf8', errors='surrogatepass')\n        # normalize newlines",
+  "        status = p.returncode\n        if status < 0:\n            raise RuntimeError('merge tool was killed')\n        output = output.decode('utf8', errors='surrogatepass')\n        # normalize newlines")
+M('C07', 'tool-stderr-merged-into-text', PP, "        p = Popen(cmd, cwd=td, stdout=PIPE)\n        output, errors = p.communicate()\n        status = p.returncode\n        output = output.decode('utf8', errors='surrogatepass')\n        # normalize newlines",
+  "        p = Popen(cmd, cwd=td, stdout=PIPE, stderr=subprocess.STDOUT)\n        output, errors = p.communicate()\n        status = p.returncode\n        output = output.decode('utf8', errors='surrogatepass')\n        # normalize newlines", 'R07.5')
+T('C07', 'twin-tool-stderr-captured-separately', PP, "        p = Popen(cmd, cwd=td, stdout=PIPE)\n        output, errors = p.communicate()\n        status = p.returncode\n        output = output.decode('utf8', errors='surrogatepass')\n        # normalize newlines",
+  "        p = Popen(cmd, cwd=td, stdout=PIPE, stderr=PIPE)\n        output, errors = p.communicate()\n        status = p.returncode\n        output = output.decode('utf8', errors='surrogatepass')\n        # normalize newlines")
 M('C08', 'logging-to-stdout', LOGPY, 'logging.basicConfig(format=format, level=level)', 'logging.basicConfig(format=format, level=level, stream=sys.stdout)', 'R08.6',
   edits=[(LOGPY, 'import logging\n', 'import logging\nimport sys\n')])
 T('C08', 'twin-logging-to-explicit-stderr', LOGPY, 'logging.basicConfig(format=format, level=level)', 'logging.basicConfig(format=format, level=level, stream=sys.stderr)',
@@ -734,3 +738,46 @@ M('C02', 'overlapping-head-tail-trim', 'nbdime/diffing/seq_bruteforce.py', "def 
 T('C02', 'twin-disjoint-head-tail-trim', 'nbdime/diffing/seq_bruteforce.py', "def bruteforce_compute_snakes(A, B, compare):",
   "def _common_ends(A, B, compare):\n    n = min(len(A), len(B))\n    head = 0\n    while head < n and compare(A[head], B[head]):\n        head += 1\n    tail = 0\n    while tail < n - head and compare(A[-1 - tail], B[-1 - tail]):\n        tail += 1\n    return head, tail\n\n\ndef bruteforce_compute_snakes(A, B, compare):")
 M('C08', 'trivial-merge-returns-success-without-merging', APP, "    # Git seems to give empty base file for double insertions\n", "    if bfn == rfn:\n        nbformat.write(read_notebook(lfn, on_null='minimal'), mfn)\n        return 0\n\n    # Git seems to give empty base file for double insertions\n", 'R08.1')
+
+# ---- session 4: rules for the defects hunted on the unchanged tree (mutant = the defect comes back; twin = another correct form)
+M('C14', 'fallback-exclude-set-typo', PP, "        'id', 'attachments',\n    }", "        'id', 'attachment',\n    }", 'R14.11')
+M('C16', 'fallback-exclude-set-drops-outputs', PP, "        'cell_type', 'source', 'execution_count', 'outputs', 'metadata',", "        'cell_type', 'source', 'execution_count', 'metadata',", 'R16.13')
+T('C14', 'twin-fallback-exclude-set-extended', PP, "        'id', 'attachments',\n    }", "        'id', 'attachments', 'nbdime-conflicts',\n    }")
+M('C14', 'cell-id-gated-by-details', PP, '    if id and config.id:', '    if id and config.details:', 'R14.12')
+M('C14', 'cell-metadata-gated-by-details', PP, '    if metadata and config.metadata:\n        # Write cell metadata', '    if metadata and config.details:\n        # Write cell metadata', 'R14.12')
+T('C14', 'twin-cell-id-gate-reordered', PP, '    if id and config.id:', '    if config.id and id:')
+M('C14', 'one-sided-keys-bypass-differ-table', GEN, '        if not _is_ignored(config, "/".join((path, key))):\n            di.add(key, b[key])', '        di.add(key, b[key])', 'R14.13')
+M('C14', 'removed-keys-bypass-differ-table', GEN, '        if not _is_ignored(config, "/".join((path, key))):\n            di.remove(key)', '        di.remove(key)', 'R14.13')
+T('C14', 'twin-one-sided-keys-inline-lookup', GEN, '        if not _is_ignored(config, "/".join((path, key))):\n            di.add(key, b[key])',
+  '        subpath = "/".join((path, key))\n        if not (subpath in config.differs and config.differs[subpath] is diff_ignore):\n            di.add(key, b[key])')
+M('C13', 'renderer-stores-language-on-config', PP, '        config = copy.copy(config)\n        config.language = language_info.get(', '        config.language = language_info.get(', 'R13.4')
+M('C13', 'renderer-stores-color-on-config', PP, '    prefix = ""\n\n    if config.language is None:', '    prefix = ""\n    config.use_color = config.use_color and config.out.isatty()\n\n    if config.language is None:', 'R13.4')
+T('C13', 'twin-renderer-rebuilds-config', PP, '        config = copy.copy(config)\n        config.language = language_info.get(', '        config = copy.deepcopy(config)\n        config.language = language_info.get(')
+M('C16', 'decision-printer-renders-similar-insert', PP, '    diff_keys = ("diff", "local_diff", "remote_diff", "custom_diff")', '    diff_keys = ("diff", "local_diff", "remote_diff", "custom_diff", "similar_insert")', 'R16.14')
+T('C16', 'twin-decision-printer-key-list', PP, '    diff_keys = ("diff", "local_diff", "remote_diff", "custom_diff")', '    diff_keys = ["local_diff", "remote_diff", "custom_diff", "diff"]')
+M('C16', 'cell-printer-attribute-access', PP, '        pretty_print_metadata(\n            metadata,\n            known_cell_metadata_keys,', '        pretty_print_metadata(\n            cell.metadata,\n            known_cell_metadata_keys,', 'R16.15')
+M('C16', 'output-printer-attribute-access', PP, '    metadata = output.get("metadata")\n    if metadata:', '    metadata = output.metadata\n    if metadata:', 'R16.15')
+M('C16', 'diff-temp-file-strict-encoding', PP, "        with io.open(os.path.join(td, 'after'), 'w', encoding=\"utf8\",\n                     errors=\"surrogatepass\") as f:", "        with io.open(os.path.join(td, 'after'), 'w', encoding=\"utf8\") as f:", 'R16.16')
+M('C07', 'merge-temp-file-strict-encoding', PP, "        with io.open(os.path.join(td, 'remote'), 'w', encoding=\"utf8\",\n                     errors=\"surrogatepass\") as f:", "        with io.open(os.path.join(td, 'remote'), 'w', encoding=\"utf8\") as f:", 'R07.10')
+M('C16', 'tool-output-strict-decoding', PP, "        output = output.decode('utf8', errors='surrogatepass')\n        r = re.compile(", "        output = output.decode('utf8')\n        r = re.compile(", 'R16.16')
+T('C16', 'twin-temp-files-backslashreplace', PP, 'errors="surrogatepass") as f:', 'errors="backslashreplace") as f:', count=5)
+M('C07', 'git-failure-status-returned', PP, '        if 0 <= status <= 127:\n            return merged, status', '        if status >= 0:\n            return merged, status', 'R07.11')
+M('C03', 'diff3-trouble-status-returned', PP, '        if status in (0, 1):\n            return merged, status', '        if status in (0, 1, 2):\n            return merged, status', 'R03.21')
+M('C07', 'tool-result-returned-unchecked', PP, "        merged, status = merge_render_with_git(b, l, r, strategy)\n        # git merge-file: number of conflicts (at most 127), else an error\n        if 0 <= status <= 127:\n            return merged, status",
+  "        return merge_render_with_git(b, l, r, strategy)", 'R07.11')
+T('C07', 'twin-git-status-test-other-form', PP, '        if 0 <= status <= 127:\n            return merged, status', '        if not (status < 0 or status > 127):\n            return merged, status')
+M('C07', 'diff3-gets-unterminated-text', PP, "    if not all(t.endswith('\\n') for t in (b, l, r)):\n        # diff3 appends its markers to an unterminated last line\n        return builtin_merge_render(b, l, r, strategy)\n", '', 'R07.12')
+M('C07', 'diff3-newline-test-misses-base', PP, "    if not all(t.endswith('\\n') for t in (b, l, r)):", "    if not all(t.endswith('\\n') for t in (l, r)):", 'R07.12')
+T('C07', 'twin-diff3-newline-test-explicit', PP, "    if not all(t.endswith('\\n') for t in (b, l, r)):", "    if not (b.endswith('\\n') and l.endswith('\\n') and r.endswith('\\n')):")
+M('C03', 'similar-cells-of-different-type-recursed', STR, "        if similar and chunktype == 'A/A' and any(\n                lc.get('cell_type') != rc.get('cell_type') for (lc, rc) in\n                zip(d.local_diff[0].valuelist, d.remote_diff[0].valuelist)):\n            # Cells aligned by id but of different types are not merged\n            # field by field\n            similar = False\n", '', 'R03.22')
+T('C03', 'twin-id-predicate-compares-cell-type', NBD, "    return 'id' in x and 'id' in y and x['id'] == y['id']", "    if x['cell_type'] != y['cell_type']:\n        return False\n    return 'id' in x and 'id' in y and x['id'] == y['id']",
+  edits=[(STR, "        if similar and chunktype == 'A/A' and any(\n                lc.get('cell_type') != rc.get('cell_type') for (lc, rc) in\n                zip(d.local_diff[0].valuelist, d.remote_diff[0].valuelist)):\n            # Cells aligned by id but of different types are not merged\n            # field by field\n            similar = False\n", '')])
+M('C08', 'placeholder-keeps-newest-format-version', APP, "    minors = [nb.nbformat_minor for nb in (b, l, r) if nb.cells or nb.metadata]\n    if minors:\n        for nb in (b, l, r):\n            if not (nb.cells or nb.metadata):\n                nb.nbformat_minor = min(minors)\n", '', 'R08.10')
+M('C04', 'placeholder-version-aligned-after-merge', APP, "    minors = [nb.nbformat_minor for nb in (b, l, r) if nb.cells or nb.metadata]\n    if minors:\n        for nb in (b, l, r):\n            if not (nb.cells or nb.metadata):\n                nb.nbformat_minor = min(minors)\n\n    merged, decisions = merge_notebooks(b, l, r, args)\n",
+  "    merged, decisions = merge_notebooks(b, l, r, args)\n    minors = [nb.nbformat_minor for nb in (b, l, r) if nb.cells or nb.metadata]\n    if minors:\n        for nb in (b, l, r):\n            if not (nb.cells or nb.metadata):\n                nb.nbformat_minor = min(minors)\n", 'R04.8')
+M('C16', 'git-no-color-not-passed', PP, '        cmd = cmd.replace(" --color-words", " --no-color")', '        cmd = cmd.replace(" --color-words", "")', 'R16.1')
+T('C16', 'twin-git-no-color-appended', PP, '        cmd = cmd.replace(" --color-words", " --no-color")', '        cmd = cmd.replace(" --color-words", "") + " --no-color"')
+M('C09', 'attachment-conflicts-keyed-without-combining', STR, '    ldiffs_by_key = {d.key: d for d in combine_patches(local_conflict_diffs)}', '    ldiffs_by_key = {d.key: d for d in local_conflict_diffs}', 'R09.14')
+T('C09', 'twin-attachment-conflicts-combined-first', STR, '    ldiffs_by_key = {d.key: d for d in combine_patches(local_conflict_diffs)}', '    local_conflict_diffs = combine_patches(local_conflict_diffs)\n    ldiffs_by_key = {d.key: d for d in local_conflict_diffs}')
+M('C05', 'chunk-sanity-guard-tests-per-side-list', 'nbdime/merging/chunks.py', '    if base or any(split_diffs):', '    if base or split_diffs:', 'R05.7')
+T('C05', 'twin-chunk-sanity-guard-any-diffs', 'nbdime/merging/chunks.py', '    if base or any(split_diffs):', '    if base or any(d for d in diffs):')
